@@ -31,13 +31,16 @@ def _normaliser(ctx):
 
 
 def path_params(ctx):
-    """(public method, parameter) pairs that carry a path: passed directly
-    to the normaliser, or delegated to such a parameter."""
+    """(builder function, parameter) pairs that carry a raw path: passed
+    directly to the normaliser, or delegated to such a parameter of another
+    builder function (public method or private helper)."""
     R = ctx.R
     prog = ctx.prog
     N = _normaliser(ctx)
+    fs = [f for f in prog.funcs.values()
+          if f.cls == R.builder and f.qualname != N.qualname]
     pp = set()
-    for F in R.public_methods:
+    for F in fs:
         for call in prog.calls_in(F):
             for g in prog.resolve_call(call, F):
                 if isinstance(g, Func) and g.qualname == N.qualname and \
@@ -47,10 +50,10 @@ def path_params(ctx):
     changed = True
     while changed:
         changed = False
-        for F in R.public_methods:
+        for F in fs:
             for call in prog.calls_in(F):
                 for g in prog.resolve_call(call, F):
-                    if isinstance(g, Func) and g in R.public_methods:
+                    if isinstance(g, Func) and g in fs:
                         b = prog.bind_args(call, g)
                         for p, a in b.items():
                             if (g.qualname, p) in pp and isinstance(
@@ -66,8 +69,10 @@ def r7_1(ctx, rc):
     prog = ctx.prog
     N = _normaliser(ctx)
     pp = path_params(ctx)
-    if len(pp) < 10:
-        raise AnalysisError('only %d public path parameters found' % len(pp))
+    pub = {f.qualname for f in R.public_methods}
+    npub = len([1 for fq, _ in pp if fq in pub])
+    if npub < 10:
+        raise AnalysisError('only %d public path parameters found' % npub)
     for fq, p in sorted(pp):
         F = prog.funcs[fq]
         cfg = ctx.E.cfgs.get(F)
@@ -90,7 +95,7 @@ def r7_1(ctx, rc):
                                     g.qualname == N.qualname:
                                 ok = True
                             elif isinstance(g, Func) and \
-                                    g in R.public_methods:
+                                    g.cls == R.builder:
                                 b = prog.bind_args(par, g)
                                 for p2, a in b.items():
                                     if a is n and (g.qualname, p2) in pp:
@@ -110,7 +115,10 @@ def r7_1(ctx, rc):
     # normaliser only
     stop = lambda n: n == N.qualname
     n_sinks = 0
-    for F in R.public_methods:
+    sink_funcs = list(R.public_methods) + [
+        prog.funcs[fq] for fq in sorted({fq for fq, _ in pp})
+        if fq not in pub]
+    for F in sink_funcs:
         for call in prog.calls_in(F):
             sinks = []
             for g in prog.resolve_call(call, F):
@@ -123,11 +131,14 @@ def r7_1(ctx, rc):
                         fld = c11_param_field(ctx, g.cls_for_ctor, p2)
                         if fld == 'filename':
                             sinks.append((a, 'record field .filename'))
-                        if fld == 'args' and isinstance(a, ast.List) and \
-                                a.elts and 'suboperations' not in \
+                        if fld == 'args' and 'suboperations' not in \
                                 R.record_fields[g.cls_for_ctor]:
-                            sinks.append((a.elts[0],
-                                          'recorded query argument'))
+                            a0 = a
+                            while isinstance(a0, ast.BinOp):
+                                a0 = a0.left
+                            if isinstance(a0, ast.List) and a0.elts:
+                                sinks.append((a0.elts[0],
+                                              'recorded query argument'))
                 elif g in ('builtins.open',):
                     sinks.append((call.args[0], 'open()'))
             for a, what in sinks:
@@ -147,7 +158,7 @@ def r7_1(ctx, rc):
                         prog.loc(F, a), key=key)
                 else:
                     rc.ok({'sink': key}, key=key)
-    if n_sinks < 10:
+    if n_sinks < 4:
         raise AnalysisError('only %d path sinks found' % n_sinks)
     # shape of the normaliser: str(abspath(fsdecode(x)))
     rets = [n for n in ast.walk(N.node) if isinstance(n, ast.Return)]
